@@ -2065,7 +2065,8 @@ def gen_real_cases(ctx):
     prng = random.Random(rng.randrange(10**9))
     for backend in REAL_BACKENDS:
         gen_small, gen_mid = [prng.randrange(10**9), 3107], [prng.randrange(10**9), 300000 + 77]
-        for prog in gen_consume_programs(prng, 512, 0.03, 3 if thorough else 1):
+        progs = gen_consume_programs(prng, 512, 0.03, 3 if thorough else 1)
+        for prog in progs if thorough else [progs[i] for i in (1, 3, 5, 7, 8, 10, 11)]:
             add("real_consume", backend=backend, verb="RETR", payload_gen=gen_small, offset=prng.choice([0, 0, 700]), consume=prog)
         for prog in gen_consume_programs(prng, 8192, 0.03, 0)[1:4 if thorough else 3]:
             add("real_consume", backend=backend, verb="RETR", payload_gen=gen_mid, offset=prng.choice([0, 8193]), consume=prog)
